@@ -47,6 +47,7 @@ structure DAcc where
   hist : Std.HashMap String Nat := {}
   seen : Std.HashSet UInt64 := {}
   samples : Nat := 0
+  specSeen : Std.HashMap String Nat := {}
   printed : Nat := 0
 
 def bump (h : Std.HashMap String Nat) (k : String) : Std.HashMap String Nat :=
@@ -78,8 +79,10 @@ partial def loop (h : IO.FS.Stream) (echo : Bool) (a : DAcc) : IO DAcc := do
         | some true => a := { a with specOk := a.specOk + 1 }
         | some false =>
           let c := if v.cls.isEmpty then "UNLISTED" else v.cls
-          if a.printed < 2000 then IO.println s!"SPECFAIL {c} {line} || model={v.model}"
-          a := { a with specFail := a.specFail + 1, printed := a.printed + 1 }
+          -- cap the output per class, so that a rare unlisted failure is never crowded out
+          let n := a.specSeen.getD c 0
+          if n < (if v.cls.isEmpty then 300 else 40) then IO.println s!"SPECFAIL {c} {line} || model={v.model}"
+          a := { a with specFail := a.specFail + 1, specSeen := a.specSeen.insert c (n + 1) }
         let hsh := hash lhs
         if v.nontrivial && !a.seen.contains hsh then
           a := { a with nontrivial := a.nontrivial + 1, seen := a.seen.insert hsh }
